@@ -76,6 +76,11 @@ theorem dirty_adv_of_dirty {s : St} {w r : Bytes} (h : Dirty s) : Dirty (s.adv w
   simp only [Dirty] at h
   simp [Dirty, St.adv, isBlank_append, h]
 
+theorem dst_of_dirty {s : St} (h : Dirty s) : dst s = (false, s.lastComment) := by
+  unfold dst; rw [show isBlank s.line = false from h]
+
+@[simp] theorem St.adv_lastComment (s : St) (w r : Bytes) : (s.adv w r).lastComment = s.lastComment := rfl
+
 /-! ### scanning loops -/
 
 /-- the input `r` does not continue a run of class `p` -/
@@ -461,6 +466,15 @@ theorem advance_fwd {g : Gap} {s : St} {tail : Bytes} (h : s.rest = renderGap g 
     ∃ s', advance s = .ok s' ∧ s'.rest = tail ∧ dst s' = gapDoc (dst s) g :=
   advanceLoop_fwd g _ s tail h hw ht hnc
 
+/-- behind a token the pending documentation moves by `gapPend` -/
+theorem advance_fwd_lc {g : Gap} {s : St} {tail : Bytes} (h : s.rest = renderGap g tail) (hw : g.wf = true)
+    (ht : TailOk tail) (hd : Dirty s) (hnc : NoCrash (advance s)) :
+    ∃ s', advance s = .ok s' ∧ s'.rest = tail ∧ s'.lastComment = gapPend s.lastComment g := by
+  obtain ⟨s', h', hr', hd'⟩ := advance_fwd h hw ht hnc
+  refine ⟨s', h', hr', ?_⟩
+  rw [dst_of_dirty hd] at hd'
+  exact congrArg Prod.snd hd'
+
 /-- a last comment without line feed: `advance` runs to the end of the input -/
 theorem advanceLoop_final {f : Nat} {s : St} {t : Bytes} (h : s.rest = 35 :: t)
     (ht : t.all (fun c => c != 10) = true) (hnc : NoCrash (advanceLoop f s)) :
@@ -679,7 +693,7 @@ theorem readStructType_fuel {f : Nat} {s : St} (h : NoCrash (readStructType f s)
 theorem names_fwd : ∀ (r : List (Gap × Bytes × Gap)) (f : Nat) (s : St) (tail : Bytes) (acc : Fields),
     namesFit r = true → s.rest = renderNames r tail → NoCrash (structTail f s .enum acc) →
     ∃ s', structTail f s .enum acc = .ok (some (.enum (Fields.revAppend acc (eraseNames r))), s') ∧
-      s'.rest = tail ∧ Dirty s' := by
+      s'.rest = tail ∧ Dirty s' ∧ s'.lastComment = namesPend r s.lastComment := by
   intro r
   induction r with
   | nil =>
@@ -691,7 +705,7 @@ theorem names_fwd : ∀ (r : List (Gap × Bytes × Gap)) (f : Nat) (s : St) (tai
     rw [bind_ok_eq h1] at hnc ⊢
     rw [next_cons h]
     simp only [↓reduceIte]
-    refine ⟨s.adv [41] tail, ?_, rfl, dirty_adv (by decide)⟩
+    refine ⟨s.adv [41] tail, ?_, rfl, dirty_adv (by decide), rfl⟩
     simp [mkFieldList, Fields.reverse, eraseNames]
   | cons p r ih =>
     obtain ⟨g1, n, g4⟩ := p
@@ -709,9 +723,9 @@ theorem names_fwd : ∀ (r : List (Gap × Bytes × Gap)) (f : Nat) (s : St) (tai
     obtain ⟨f1, rfl⟩ := structLoop_fuel hnc
     unfold structLoop at hnc ⊢
     obtain ⟨c, w, rfl, hc, hw⟩ := fieldName_split hn
-    obtain ⟨s1, h2, hr1, _⟩ := advance_fwd (s := s.adv [44] (renderGap g1 (c :: w ++ renderGap g4 (renderNames r tail))))
+    obtain ⟨s1, h2, hr1, hl1⟩ := advance_fwd_lc (s := s.adv [44] (renderGap g1 (c :: w ++ renderGap g4 (renderNames r tail))))
       (g := g1) (tail := c :: w ++ renderGap g4 (renderNames r tail)) rfl hg1
-      (tailOk_append (notLay_of_lower hc)) hnc.of_bind
+      (tailOk_append (notLay_of_lower hc)) (dirty_adv (by decide)) hnc.of_bind
     rw [bind_ok_eq h2] at hnc ⊢
     obtain ⟨d, x, hx, hd⟩ := renderNames_head r tail
     have hstop : Stop (renderGap g4 (renderNames r tail)) :=
@@ -720,9 +734,10 @@ theorem names_fwd : ∀ (r : List (Gap × Bytes × Gap)) (f : Nat) (s : St) (tai
     rw [bind_ok_eq h3] at hnc ⊢
     simp only at hnc ⊢
     rw [if_neg (by simp)] at hnc ⊢
-    obtain ⟨s3, h4, hr3, _⟩ := advance_fwd (s := s1.adv (c :: w) (renderGap g4 (renderNames r tail))) (g := g4)
+    obtain ⟨s3, h4, hr3, hl3⟩ := advance_fwd_lc (s := s1.adv (c :: w) (renderGap g4 (renderNames r tail))) (g := g4)
       (tail := renderNames r tail) rfl hg4
-      (by rw [hx]; rcases hd with rfl | rfl <;> exact tailOk_cons _ (by decide)) hnc.of_bind
+      (by rw [hx]; rcases hd with rfl | rfl <;> exact tailOk_cons _ (by decide))
+      (dirty_adv (isBlank_cons_false (notLay_of_lower hc))) hnc.of_bind
     rw [bind_ok_eq h4] at hnc ⊢
     rw [hx] at hr3
     rw [next_cons hr3] at hnc ⊢
@@ -730,8 +745,9 @@ theorem names_fwd : ∀ (r : List (Gap × Bytes × Gap)) (f : Nat) (s : St) (tai
     rw [if_neg (by rcases hd with rfl | rfl <;> decide)] at hnc ⊢
     rw [if_neg (by simp)] at hnc ⊢
     rw [← hx] at hr3
-    obtain ⟨s', h5, hr5, hd5⟩ := ih f1 s3 tail (.bare (c :: w) acc) hr hr3 hnc
-    exact ⟨s', by rw [h5]; rfl, hr5, hd5⟩
+    obtain ⟨s', h5, hr5, hd5, hl5⟩ := ih f1 s3 tail (.bare (c :: w) acc) hr hr3 hnc
+    simp only [St.adv_lastComment] at hl1 hl3
+    exact ⟨s', by rw [h5]; rfl, hr5, hd5, by rw [hl5, hl3, hl1]; rfl⟩
 
 /-! ### one step of the type readers, by the byte under the cursor -/
 
@@ -813,6 +829,14 @@ def LFields.body : LFields → Bytes → Bytes
 theorem LFields.render_eq (fs : LFields) (tl : Bytes) : fs.render tl = renderGap fs.g1 (fs.body tl) := by
   cases fs <;> simp [LFields.render, LFields.g1, LFields.body]
 
+/-- the pending documentation behind a field list, given what is pending behind its first gap -/
+def LFields.pendBody : LFields → Bytes → Bytes
+  | .last _ _ g2 g3 t g4, lc => gapPend (t.pend (gapPend (gapPend lc g2) g3)) g4
+  | .cons _ _ g2 g3 t g4 r, lc => r.pend (gapPend (t.pend (gapPend (gapPend lc g2) g3)) g4)
+
+theorem LFields.pend_eq (fs : LFields) (lc : Bytes) : fs.pend lc = fs.pendBody (gapPend lc fs.g1) := by
+  cases fs <;> simp [LFields.pend, LFields.g1, LFields.pendBody]
+
 theorem LFields.g1_wf {fs : LFields} (h : fs.fits = true) : fs.g1.wf = true := by
   cases fs <;> simp_all [LFields.fits, LFields.g1]
 
@@ -855,7 +879,7 @@ theorem readType_builtin {f : Nat} {s : St} {k tail : Bytes} {ty : Ty}
     (hsel : (k = kwBool ∧ ty = .bool) ∨ (k = kwInt ∧ ty = .int) ∨ (k = kwFloat ∧ ty = .float) ∨
       (k = kwString ∧ ty = .string) ∨ (k = kwObject ∧ ty = .object))
     (h : s.rest = k ++ tail) (hstop : Stop tail) (hnc : NoCrash (readType (f + 1) s)) :
-    ∃ s', readType (f + 1) s = .ok (some ty, s') ∧ s'.rest = tail ∧ Dirty s' := by
+    ∃ s', readType (f + 1) s = .ok (some ty, s') ∧ s'.rest = tail ∧ Dirty s' ∧ s'.lastComment = s.lastComment := by
   have hk : (∀ c ∈ k, isLower c = true) ∧ ∃ c w, k = c :: w ∧ c ≠ 63 ∧ c ≠ 91 := by
     rcases hsel with ⟨rfl, _⟩ | ⟨rfl, _⟩ | ⟨rfl, _⟩ | ⟨rfl, _⟩ | ⟨rfl, _⟩ <;>
       exact ⟨by decide, _, _, rfl, by decide, by decide⟩
@@ -863,7 +887,7 @@ theorem readType_builtin {f : Nat} {s : St} {k tail : Bytes} {ty : Ty}
   rw [readType_default (r := w ++ tail) (by simpa using h) h63 h91] at hnc ⊢
   have h1 := readKeyword_lit hlow h hstop hnc.of_bind
   rw [bind_ok_eq h1] at hnc ⊢
-  refine ⟨s.adv (c :: w) tail, ?_, rfl, dirty_adv (isBlank_cons_false (notLay_of_lower (hlow c List.mem_cons_self)))⟩
+  refine ⟨s.adv (c :: w) tail, ?_, rfl, dirty_adv (isBlank_cons_false (notLay_of_lower (hlow c List.mem_cons_self))), rfl⟩
   rcases hsel with ⟨hk, rfl⟩ | ⟨hk, rfl⟩ | ⟨hk, rfl⟩ | ⟨hk, rfl⟩ | ⟨hk, rfl⟩ <;> rw [hk] <;> rfl
 
 theorem upper_not_lower {c : UInt8} (hc : isUpper c = true) : isLower c = false := by
@@ -884,23 +908,23 @@ theorem Fields.revAppend_typed_nil (acc : Fields) (n : Bytes) (t : Ty) :
 
 mutual
 theorem readType_fwd : ∀ (t : LTy) (f : Nat) (s : St) (tail : Bytes), t.fits = true → s.rest = t.render tail →
-    Stop tail → NoCrash (readType f s) →
-    ∃ s', readType f s = .ok (some t.erase, s') ∧ s'.rest = tail ∧ Dirty s'
+    (t.endsWord = true → Stop tail) → NoCrash (readType f s) →
+    ∃ s', readType f s = .ok (some t.erase, s') ∧ s'.rest = tail ∧ Dirty s' ∧ s'.lastComment = t.pend s.lastComment
   | .bool, f, s, tail, _, h, hstop, hnc => by
     obtain ⟨f0, rfl⟩ := readType_fuel hnc
-    exact readType_builtin (k := tBool) (Or.inl ⟨rfl, rfl⟩) h hstop hnc
+    exact readType_builtin (k := tBool) (Or.inl ⟨rfl, rfl⟩) h (hstop rfl) hnc
   | .int, f, s, tail, _, h, hstop, hnc => by
     obtain ⟨f0, rfl⟩ := readType_fuel hnc
-    exact readType_builtin (k := tInt) (Or.inr (Or.inl ⟨rfl, rfl⟩)) h hstop hnc
+    exact readType_builtin (k := tInt) (Or.inr (Or.inl ⟨rfl, rfl⟩)) h (hstop rfl) hnc
   | .float, f, s, tail, _, h, hstop, hnc => by
     obtain ⟨f0, rfl⟩ := readType_fuel hnc
-    exact readType_builtin (k := tFloat) (Or.inr (Or.inr (Or.inl ⟨rfl, rfl⟩))) h hstop hnc
+    exact readType_builtin (k := tFloat) (Or.inr (Or.inr (Or.inl ⟨rfl, rfl⟩))) h (hstop rfl) hnc
   | .string, f, s, tail, _, h, hstop, hnc => by
     obtain ⟨f0, rfl⟩ := readType_fuel hnc
-    exact readType_builtin (k := tString) (Or.inr (Or.inr (Or.inr (Or.inl ⟨rfl, rfl⟩)))) h hstop hnc
+    exact readType_builtin (k := tString) (Or.inr (Or.inr (Or.inr (Or.inl ⟨rfl, rfl⟩)))) h (hstop rfl) hnc
   | .object, f, s, tail, _, h, hstop, hnc => by
     obtain ⟨f0, rfl⟩ := readType_fuel hnc
-    exact readType_builtin (k := tObject) (Or.inr (Or.inr (Or.inr (Or.inr ⟨rfl, rfl⟩)))) h hstop hnc
+    exact readType_builtin (k := tObject) (Or.inr (Or.inr (Or.inr (Or.inr ⟨rfl, rfl⟩)))) h (hstop rfl) hnc
   | .named n, f, s, tail, hfit, h, hstop, hnc => by
     obtain ⟨f0, rfl⟩ := readType_fuel hnc
     obtain ⟨c, w, rfl, hc, hw⟩ := typeName_split (by simpa [LTy.fits] using hfit)
@@ -911,19 +935,19 @@ theorem readType_fwd : ∀ (t : LTy) (f : Nat) (s : St) (tail : Bytes), t.fits =
     have h1 := readKeyword_none (s := s) (by rw [h]; exact upper_not_lower hc) hnc.of_bind
     rw [bind_ok_eq h1] at hnc ⊢
     simp only [ne_eq, not_true_eq_false, ↓reduceIte] at hnc ⊢
-    have h2 := readTypeName_fwd h hc hw hstop.alnum hnc.of_bind
+    have h2 := readTypeName_fwd h hc hw (hstop rfl).alnum hnc.of_bind
     rw [bind_ok_eq h2]
     simp only [reduceCtorEq, not_false_eq_true, ↓reduceIte]
-    exact ⟨_, rfl, rfl, dirty_adv (isBlank_cons_false (notLay_of_upper hc))⟩
+    exact ⟨_, rfl, rfl, dirty_adv (isBlank_cons_false (notLay_of_upper hc)), rfl⟩
   | .maybe t, f, s, tail, hfit, h, hstop, hnc => by
     obtain ⟨f0, rfl⟩ := readType_fuel hnc
     simp only [LTy.fits, Bool.and_eq_true, Bool.not_eq_true'] at hfit
     simp only [LTy.render] at h
     rw [readType_q h] at hnc ⊢
-    obtain ⟨s', h1, hr1, hd1⟩ := readType_fwd t f0 (s.adv [63] (t.render tail)) tail hfit.2 rfl hstop hnc.of_bind
+    obtain ⟨s', h1, hr1, hd1, hl1⟩ := readType_fwd t f0 (s.adv [63] (t.render tail)) tail hfit.2 rfl hstop hnc.of_bind
     rw [bind_ok_eq h1]
     simp only [LTy.erase_isMaybe, hfit.1, Bool.false_eq_true, ↓reduceIte]
-    exact ⟨s', rfl, hr1, hd1⟩
+    exact ⟨s', rfl, hr1, hd1, hl1⟩
   | .array t, f, s, tail, hfit, h, hstop, hnc => by
     obtain ⟨f0, rfl⟩ := readType_fuel hnc
     simp only [LTy.fits] at hfit
@@ -935,9 +959,9 @@ theorem readType_fwd : ∀ (t : LTy) (f : Nat) (s : St) (tail : Bytes), t.fits =
     simp only [Bool.or_true, decide_true, Bool.not_true, Bool.false_eq_true, ↓reduceIte] at hnc ⊢
     rw [next_cons (s := s.adv [91] (93 :: t.render tail)) (c := 93) (r := t.render tail) rfl] at hnc ⊢
     simp only [ne_eq, not_true_eq_false, ↓reduceIte] at hnc ⊢
-    obtain ⟨s', h2, hr2, hd2⟩ := readType_fwd t f0 _ tail hfit rfl hstop hnc.of_bind
+    obtain ⟨s', h2, hr2, hd2, hl2⟩ := readType_fwd t f0 _ tail hfit rfl hstop hnc.of_bind
     rw [bind_ok_eq h2]
-    exact ⟨s', rfl, hr2, hd2⟩
+    exact ⟨s', rfl, hr2, hd2, hl2⟩
   | .map t, f, s, tail, hfit, h, hstop, hnc => by
     obtain ⟨f0, rfl⟩ := readType_fuel hnc
     simp only [LTy.fits] at hfit
@@ -950,9 +974,9 @@ theorem readType_fwd : ∀ (t : LTy) (f : Nat) (s : St) (tail : Bytes), t.fits =
     rw [next_cons (s := (s.adv [91] (kwString ++ 93 :: t.render tail)).adv kwString (93 :: t.render tail))
       (c := 93) (r := t.render tail) rfl] at hnc ⊢
     simp only [ne_eq, not_true_eq_false, ↓reduceIte] at hnc ⊢
-    obtain ⟨s', h2, hr2, hd2⟩ := readType_fwd t f0 _ tail hfit rfl hstop hnc.of_bind
+    obtain ⟨s', h2, hr2, hd2, hl2⟩ := readType_fwd t f0 _ tail hfit rfl hstop hnc.of_bind
     rw [bind_ok_eq h2]
-    refine ⟨s', ?_, hr2, hd2⟩
+    refine ⟨s', ?_, hr2, hd2, hl2⟩
     simp [kwString, LTy.erase]
   | .unit g, f, s, tail, hfit, h, hstop, hnc => by
     obtain ⟨f0, rfl⟩ := readType_fuel hnc
@@ -962,12 +986,12 @@ theorem readType_fwd : ∀ (t : LTy) (f : Nat) (s : St) (tail : Bytes), t.fits =
     rw [hp] at hnc ⊢
     obtain ⟨f1, rfl⟩ := readStructType_fuel hnc
     rw [readStructType_open h] at hnc ⊢
-    obtain ⟨s2, h1, hr1, _⟩ := advance_fwd (s := s.adv [40] (renderGap g (41 :: tail))) (g := g)
-      (tail := 41 :: tail) rfl hfit (tailOk_cons _ (by decide)) hnc.of_bind
+    obtain ⟨s2, h1, hr1, hl1⟩ := advance_fwd_lc (s := s.adv [40] (renderGap g (41 :: tail))) (g := g)
+      (tail := 41 :: tail) rfl hfit (tailOk_cons _ (by decide)) (dirty_adv (by decide)) hnc.of_bind
     rw [bind_ok_eq h1]
     rw [next_cons hr1]
     simp only [↓reduceIte]
-    exact ⟨_, rfl, rfl, dirty_adv (by decide)⟩
+    exact ⟨_, rfl, rfl, dirty_adv (by decide), hl1⟩
   | .struct fs, f, s, tail, hfit, h, hstop, hnc => by
     obtain ⟨f0, rfl⟩ := readType_fuel hnc
     simp only [LTy.fits] at hfit
@@ -977,16 +1001,19 @@ theorem readType_fwd : ∀ (t : LTy) (f : Nat) (s : St) (tail : Bytes), t.fits =
     obtain ⟨f1, rfl⟩ := readStructType_fuel hnc
     rw [readStructType_open h] at hnc ⊢
     obtain ⟨c, x, hb, hc⟩ := LFields.body_head hfit tail
-    obtain ⟨s2, h1, hr1, _⟩ := advance_fwd (s := s.adv [40] (fs.render tail)) (g := fs.g1)
+    obtain ⟨s2, h1, hr1, hl1⟩ := advance_fwd_lc (s := s.adv [40] (fs.render tail)) (g := fs.g1)
       (tail := fs.body tail) (by rw [LFields.render_eq]; rfl) (LFields.g1_wf hfit)
-      (by rw [hb]; exact tailOk_cons _ (notLay_of_lower hc)) hnc.of_bind
+      (by rw [hb]; exact tailOk_cons _ (notLay_of_lower hc)) (dirty_adv (by decide)) hnc.of_bind
     rw [bind_ok_eq h1] at hnc ⊢
     rw [hb] at hr1
     rw [next_cons hr1] at hnc ⊢
     simp only [Option.some.injEq, lower_ne_41 hc, ↓reduceIte] at hnc ⊢
     rw [← hb] at hr1
-    obtain ⟨s', h2, hr2, hd2⟩ := fields_fwd fs f1 s2 [] tail .nil hfit rfl hr1 hnc
-    exact ⟨s', by rw [h2]; rfl, hr2, hd2⟩
+    obtain ⟨s', h2, hr2, hd2, hl2⟩ := fields_fwd fs f1 s2 [] tail .nil hfit rfl hr1 hnc
+    refine ⟨s', by rw [h2]; rfl, hr2, hd2, ?_⟩
+    rw [hl2]
+    show fs.pendBody s2.lastComment = fs.pend s.lastComment
+    rw [hl1, LFields.pend_eq]; rfl
   | .enum g1 n g4 r, f, s, tail, hfit, h, hstop, hnc => by
     obtain ⟨f0, rfl⟩ := readType_fuel hnc
     simp only [LTy.fits, Bool.and_eq_true] at hfit
@@ -997,9 +1024,9 @@ theorem readType_fwd : ∀ (t : LTy) (f : Nat) (s : St) (tail : Bytes), t.fits =
     obtain ⟨f1, rfl⟩ := readStructType_fuel hnc
     rw [readStructType_open h] at hnc ⊢
     obtain ⟨c, w, rfl, hc, hw⟩ := fieldName_split hn
-    obtain ⟨s2, h1, hr1, _⟩ := advance_fwd (s := s.adv [40] (renderGap g1 (c :: w ++ renderGap g4 (renderNames r tail))))
+    obtain ⟨s2, h1, hr1, hl1⟩ := advance_fwd_lc (s := s.adv [40] (renderGap g1 (c :: w ++ renderGap g4 (renderNames r tail))))
       (g := g1) (tail := c :: w ++ renderGap g4 (renderNames r tail)) rfl hg1
-      (tailOk_append (notLay_of_lower hc)) hnc.of_bind
+      (tailOk_append (notLay_of_lower hc)) (dirty_adv (by decide)) hnc.of_bind
     rw [bind_ok_eq h1] at hnc ⊢
     rw [next_cons (r := w ++ renderGap g4 (renderNames r tail)) (by simpa using hr1)] at hnc ⊢
     simp only [Option.some.injEq, lower_ne_41 hc, ↓reduceIte] at hnc ⊢
@@ -1015,9 +1042,10 @@ theorem readType_fwd : ∀ (t : LTy) (f : Nat) (s : St) (tail : Bytes), t.fits =
     rw [bind_ok_eq h3] at hnc ⊢
     simp only at hnc ⊢
     rw [if_neg (by simp)] at hnc ⊢
-    obtain ⟨s3, h4, hr3, _⟩ := advance_fwd (s := s2.adv (c :: w) (renderGap g4 (renderNames r tail))) (g := g4)
+    obtain ⟨s3, h4, hr3, hl3⟩ := advance_fwd_lc (s := s2.adv (c :: w) (renderGap g4 (renderNames r tail))) (g := g4)
       (tail := renderNames r tail) rfl hg4
-      (by rw [hx]; rcases hd with rfl | rfl <;> exact tailOk_cons _ (by decide)) hnc.of_bind
+      (by rw [hx]; rcases hd with rfl | rfl <;> exact tailOk_cons _ (by decide))
+      (dirty_adv (isBlank_cons_false (notLay_of_lower hc))) hnc.of_bind
     rw [bind_ok_eq h4] at hnc ⊢
     rw [hx] at hr3
     rw [next_cons hr3] at hnc ⊢
@@ -1025,12 +1053,13 @@ theorem readType_fwd : ∀ (t : LTy) (f : Nat) (s : St) (tail : Bytes), t.fits =
     rw [if_neg (by rcases hd with rfl | rfl <;> decide)] at hnc ⊢
     rw [if_neg (by simp [Fields.isNil])] at hnc ⊢
     rw [← hx] at hr3
-    obtain ⟨s', h5, hr5, hd5⟩ := names_fwd r f2 s3 tail (.bare (c :: w) .nil) hr hr3 hnc
-    exact ⟨s', by rw [h5]; rfl, hr5, hd5⟩
+    obtain ⟨s', h5, hr5, hd5, hl5⟩ := names_fwd r f2 s3 tail (.bare (c :: w) .nil) hr hr3 hnc
+    simp only [St.adv_lastComment] at hl1 hl3
+    exact ⟨s', by rw [h5]; rfl, hr5, hd5, by rw [hl5, hl3, hl1]; rfl⟩
 theorem fields_fwd : ∀ (fs : LFields) (f : Nat) (s : St) (g : Gap) (tail : Bytes) (acc : Fields), fs.fits = true →
     g.wf = true → s.rest = renderGap g (fs.body tail) → NoCrash (structLoop f s .struct acc) →
     ∃ s', structLoop f s .struct acc = .ok (some (.struct (Fields.revAppend acc fs.erase)), s') ∧
-      s'.rest = tail ∧ Dirty s'
+      s'.rest = tail ∧ Dirty s' ∧ s'.lastComment = fs.pendBody (gapDoc (dst s) g).2
   | .last g1 n g2 g3 t g4, f, s, g, tail, acc, hfit, hg, h, hnc => by
     simp only [LFields.fits, Bool.and_eq_true] at hfit
     obtain ⟨⟨⟨⟨⟨_, hn⟩, hg2⟩, hg3⟩, ht⟩, hg4⟩ := hfit
@@ -1038,37 +1067,40 @@ theorem fields_fwd : ∀ (fs : LFields) (f : Nat) (s : St) (g : Gap) (tail : Byt
     obtain ⟨f0, rfl⟩ := structLoop_fuel hnc
     unfold structLoop at hnc ⊢
     obtain ⟨c, w, rfl, hc, hw⟩ := fieldName_split hn
-    obtain ⟨s1, h1, hr1, _⟩ := advance_fwd h hg (tailOk_append (notLay_of_lower hc)) hnc.of_bind
+    obtain ⟨s1, h1, hr1, hd1⟩ := advance_fwd h hg (tailOk_append (notLay_of_lower hc)) hnc.of_bind
+    have hl1 : s1.lastComment = (gapDoc (dst s) g).2 := congrArg Prod.snd hd1
     rw [bind_ok_eq h1] at hnc ⊢
     have h2 := readFieldName_fwd hr1 hc hw (stop_renderGap g2 (stop_cons _ (by decide))) hnc.of_bind
     rw [bind_ok_eq h2] at hnc ⊢
     simp only at hnc ⊢
     rw [if_neg (by simp)] at hnc ⊢
-    obtain ⟨s3, h3, hr3, _⟩ := advance_fwd (s := s1.adv (c :: w) (renderGap g2 (58 :: renderGap g3 (t.render (renderGap g4 (41 :: tail))))))
+    obtain ⟨s3, h3, hr3, hl3⟩ := advance_fwd_lc (s := s1.adv (c :: w) (renderGap g2 (58 :: renderGap g3 (t.render (renderGap g4 (41 :: tail))))))
       (g := g2) (tail := 58 :: renderGap g3 (t.render (renderGap g4 (41 :: tail)))) rfl hg2
-      (tailOk_cons _ (by decide)) hnc.of_bind
+      (tailOk_cons _ (by decide)) (dirty_adv (isBlank_cons_false (notLay_of_lower hc))) hnc.of_bind
     rw [bind_ok_eq h3] at hnc ⊢
     rw [next_cons hr3] at hnc ⊢
     simp only [↓reduceIte] at hnc ⊢
     rw [if_neg (by decide)] at hnc ⊢
     obtain ⟨ct, xt, hxt, hct⟩ := LTy.render_head ht (renderGap g4 (41 :: tail))
-    obtain ⟨s5, h5, hr5, _⟩ := advance_fwd (s := s3.adv [58] (renderGap g3 (t.render (renderGap g4 (41 :: tail)))))
+    obtain ⟨s5, h5, hr5, hl5⟩ := advance_fwd_lc (s := s3.adv [58] (renderGap g3 (t.render (renderGap g4 (41 :: tail)))))
       (g := g3) (tail := t.render (renderGap g4 (41 :: tail))) rfl hg3
-      (by rw [hxt]; exact tailOk_cons _ hct) hnc.of_bind
+      (by rw [hxt]; exact tailOk_cons _ hct) (dirty_adv (by decide)) hnc.of_bind
     rw [bind_ok_eq h5] at hnc ⊢
-    obtain ⟨s6, h6, hr6, _⟩ := readType_fwd t f0 s5 (renderGap g4 (41 :: tail)) ht hr5
-      (stop_renderGap g4 (stop_cons _ (by decide))) hnc.of_bind
+    obtain ⟨s6, h6, hr6, hd6, hl6⟩ := readType_fwd t f0 s5 (renderGap g4 (41 :: tail)) ht hr5
+      (fun _ => stop_renderGap g4 (stop_cons _ (by decide))) hnc.of_bind
     rw [bind_ok_eq h6] at hnc ⊢
     simp only at hnc ⊢
     -- structTail
     obtain ⟨f1, rfl⟩ := structTail_fuel hnc
     unfold structTail at hnc ⊢
-    obtain ⟨s7, h7, hr7, _⟩ := advance_fwd hr6 hg4 (tailOk_cons _ (by decide)) hnc.of_bind
+    obtain ⟨s7, h7, hr7, hl7⟩ := advance_fwd_lc hr6 hg4 (tailOk_cons _ (by decide)) hd6 hnc.of_bind
+    simp only [St.adv_lastComment] at hl3 hl5
     rw [bind_ok_eq h7] at hnc ⊢
     rw [next_cons hr7]
     simp only [Option.some.injEq, ↓reduceIte]
     rw [if_neg (by decide)]
-    exact ⟨_, rfl, rfl, dirty_adv (by decide)⟩
+    refine ⟨_, rfl, rfl, dirty_adv (by decide), ?_⟩
+    simp only [St.adv_lastComment, hl7, hl6, hl5, hl3, hl1, LFields.pendBody]
   | .cons g1 n g2 g3 t g4 r, f, s, g, tail, acc, hfit, hg, h, hnc => by
     simp only [LFields.fits, Bool.and_eq_true] at hfit
     obtain ⟨⟨⟨⟨⟨⟨_, hn⟩, hg2⟩, hg3⟩, ht⟩, hg4⟩, hr⟩ := hfit
@@ -1076,38 +1108,44 @@ theorem fields_fwd : ∀ (fs : LFields) (f : Nat) (s : St) (g : Gap) (tail : Byt
     obtain ⟨f0, rfl⟩ := structLoop_fuel hnc
     unfold structLoop at hnc ⊢
     obtain ⟨c, w, rfl, hc, hw⟩ := fieldName_split hn
-    obtain ⟨s1, h1, hr1, _⟩ := advance_fwd h hg (tailOk_append (notLay_of_lower hc)) hnc.of_bind
+    obtain ⟨s1, h1, hr1, hd1⟩ := advance_fwd h hg (tailOk_append (notLay_of_lower hc)) hnc.of_bind
+    have hl1 : s1.lastComment = (gapDoc (dst s) g).2 := congrArg Prod.snd hd1
     rw [bind_ok_eq h1] at hnc ⊢
     have h2 := readFieldName_fwd hr1 hc hw (stop_renderGap g2 (stop_cons _ (by decide))) hnc.of_bind
     rw [bind_ok_eq h2] at hnc ⊢
     simp only at hnc ⊢
     rw [if_neg (by simp)] at hnc ⊢
-    obtain ⟨s3, h3, hr3, _⟩ := advance_fwd (s := s1.adv (c :: w) (renderGap g2 (58 :: renderGap g3 (t.render (renderGap g4 (44 :: r.render tail))))))
+    obtain ⟨s3, h3, hr3, hl3⟩ := advance_fwd_lc (s := s1.adv (c :: w) (renderGap g2 (58 :: renderGap g3 (t.render (renderGap g4 (44 :: r.render tail))))))
       (g := g2) (tail := 58 :: renderGap g3 (t.render (renderGap g4 (44 :: r.render tail)))) rfl hg2
-      (tailOk_cons _ (by decide)) hnc.of_bind
+      (tailOk_cons _ (by decide)) (dirty_adv (isBlank_cons_false (notLay_of_lower hc))) hnc.of_bind
     rw [bind_ok_eq h3] at hnc ⊢
     rw [next_cons hr3] at hnc ⊢
     simp only [↓reduceIte] at hnc ⊢
     rw [if_neg (by decide)] at hnc ⊢
     obtain ⟨ct, xt, hxt, hct⟩ := LTy.render_head ht (renderGap g4 (44 :: r.render tail))
-    obtain ⟨s5, h5, hr5, _⟩ := advance_fwd (s := s3.adv [58] (renderGap g3 (t.render (renderGap g4 (44 :: r.render tail)))))
+    obtain ⟨s5, h5, hr5, hl5⟩ := advance_fwd_lc (s := s3.adv [58] (renderGap g3 (t.render (renderGap g4 (44 :: r.render tail)))))
       (g := g3) (tail := t.render (renderGap g4 (44 :: r.render tail))) rfl hg3
-      (by rw [hxt]; exact tailOk_cons _ hct) hnc.of_bind
+      (by rw [hxt]; exact tailOk_cons _ hct) (dirty_adv (by decide)) hnc.of_bind
     rw [bind_ok_eq h5] at hnc ⊢
-    obtain ⟨s6, h6, hr6, _⟩ := readType_fwd t f0 s5 (renderGap g4 (44 :: r.render tail)) ht hr5
-      (stop_renderGap g4 (stop_cons _ (by decide))) hnc.of_bind
+    obtain ⟨s6, h6, hr6, hd6, hl6⟩ := readType_fwd t f0 s5 (renderGap g4 (44 :: r.render tail)) ht hr5
+      (fun _ => stop_renderGap g4 (stop_cons _ (by decide))) hnc.of_bind
     rw [bind_ok_eq h6] at hnc ⊢
     simp only at hnc ⊢
     -- structTail
     obtain ⟨f1, rfl⟩ := structTail_fuel hnc
     unfold structTail at hnc ⊢
-    obtain ⟨s7, h7, hr7, _⟩ := advance_fwd hr6 hg4 (tailOk_cons _ (by decide)) hnc.of_bind
+    obtain ⟨s7, h7, hr7, hl7⟩ := advance_fwd_lc hr6 hg4 (tailOk_cons _ (by decide)) hd6 hnc.of_bind
+    simp only [St.adv_lastComment] at hl3 hl5
     rw [bind_ok_eq h7] at hnc ⊢
     rw [next_cons hr7] at hnc ⊢
     simp only [↓reduceIte] at hnc ⊢
-    obtain ⟨s', h8, hr8, hd8⟩ := fields_fwd r f1 (s7.adv [44] (r.render tail)) r.g1 tail (.typed (c :: w) t.erase acc) hr
+    obtain ⟨s', h8, hr8, hd8, hl8⟩ := fields_fwd r f1 (s7.adv [44] (r.render tail)) r.g1 tail (.typed (c :: w) t.erase acc) hr
       (LFields.g1_wf hr) (by rw [LFields.render_eq]; rfl) hnc
-    exact ⟨s', by rw [h8]; rfl, hr8, hd8⟩
+    refine ⟨s', by rw [h8]; rfl, hr8, hd8, ?_⟩
+    have e : (gapDoc (dst (s7.adv [44] (r.render tail))) r.g1).2 = gapPend s7.lastComment r.g1 := by
+      rw [dst_of_dirty (dirty_adv (by decide))]; rfl
+    rw [hl8, e, ← LFields.pend_eq]
+    simp only [hl7, hl6, hl5, hl3, hl1, LFields.pendBody]
 end
 
 /-! ### members -/
@@ -1128,268 +1166,202 @@ theorem tailOk_ty {t : LTy} (hf : t.fits = true) (tl : Bytes) : TailOk (t.render
   obtain ⟨c, x, hx, hc⟩ := LTy.render_head hf tl
   rw [hx]; exact hc
 
+/-- a parenthesised list starts with `(` -/
+theorem LTy.render_list {t : LTy} (h : t.isList = true) (tl : Bytes) : ∃ x, t.render tl = 40 :: x := by
+  cases t <;> simp [LTy.isList] at h
+  · exact ⟨_, rfl⟩
+  · exact ⟨_, rfl⟩
+  · exact ⟨_, rfl⟩
+
 theorem readAlias_fwd {s : St} {g1 g4 : Gap} {n tail : Bytes} {t : LTy}
     (hfit : (LMember.alias g1 n g4 t).fits = true)
-    (h : s.rest = renderGap g1 (n ++ renderGap g4 (t.render tail))) (hstop : Stop tail)
-    (hnc : NoCrash (readAlias s)) :
-    ∃ s', readAlias s = .ok (.alias n s.lastComment t.erase, s') ∧ s'.rest = tail ∧ Dirty s' := by
+    (h : s.rest = renderGap g1 (n ++ renderGap g4 (t.render tail))) (hstop : t.endsWord = true → Stop tail)
+    (hds : Dirty s) (hnc : NoCrash (readAlias s)) :
+    ∃ s', readAlias s = .ok (.alias n s.lastComment t.erase, s') ∧ s'.rest = tail ∧ Dirty s' ∧
+      s'.lastComment = (LMember.alias g1 n g4 t).pend s.lastComment := by
   simp only [LMember.fits, Bool.and_eq_true, Bool.not_eq_true'] at hfit
   obtain ⟨⟨⟨⟨⟨hg1, _⟩, hn⟩, hg4⟩, hsep⟩, ht⟩ := hfit
   unfold readAlias at hnc ⊢
   obtain ⟨c, w, rfl, hc, hw⟩ := typeName_split hn
-  obtain ⟨s1, h1, hr1, _⟩ := advance_fwd h hg1 (tailOk_append (notLay_of_upper hc)) hnc.of_bind
+  obtain ⟨s1, h1, hr1, hl1⟩ := advance_fwd_lc h hg1 (tailOk_append (notLay_of_upper hc)) hds hnc.of_bind
   rw [bind_ok_eq h1] at hnc ⊢
   have h2 := readTypeName_fwd hr1 hc hw (stop_sep ht hsep tail).alnum hnc.of_bind
   rw [bind_ok_eq h2] at hnc ⊢
   simp only at hnc ⊢
   rw [if_neg (by simp)] at hnc ⊢
-  obtain ⟨s3, h3, hr3, _⟩ := advance_fwd (s := s1.adv (c :: w) (renderGap g4 (t.render tail))) (g := g4)
-    (tail := t.render tail) rfl hg4 (tailOk_ty ht tail) hnc.of_bind
+  obtain ⟨s3, h3, hr3, hl3⟩ := advance_fwd_lc (s := s1.adv (c :: w) (renderGap g4 (t.render tail))) (g := g4)
+    (tail := t.render tail) rfl hg4 (tailOk_ty ht tail) (dirty_adv (isBlank_cons_false (notLay_of_upper hc))) hnc.of_bind
   rw [bind_ok_eq h3] at hnc ⊢
-  obtain ⟨s4, h4, hr4, hd4⟩ := readType_fwd t _ s3 tail ht hr3 hstop hnc.of_bind
+  obtain ⟨s4, h4, hr4, hd4, hl4⟩ := readType_fwd t _ s3 tail ht hr3 hstop hnc.of_bind
   rw [bind_ok_eq h4]
-  exact ⟨s4, rfl, hr4, hd4⟩
+  simp only [St.adv_lastComment] at hl3
+  exact ⟨s4, rfl, hr4, hd4, by rw [hl4, hl3, hl1]; rfl⟩
 
 theorem readMethod_fwd {s : St} {g1 g4 g5 g5' : Gap} {n tail : Bytes} {i o : LTy}
     (hfit : (LMember.method g1 n g4 i g5 g5' o).fits = true)
     (h : s.rest = renderGap g1 (n ++ renderGap g4 (i.render (renderGap g5 (tArrow ++ renderGap g5' (o.render tail))))))
-    (hstop : Stop tail) (hnc : NoCrash (readMethod s)) :
-    ∃ s', readMethod s = .ok (.method n s.lastComment i.erase o.erase, s') ∧ s'.rest = tail ∧ Dirty s' := by
+    (hstop : o.endsWord = true → Stop tail) (hds : Dirty s) (hnc : NoCrash (readMethod s)) :
+    ∃ s', readMethod s = .ok (.method n s.lastComment i.erase o.erase, s') ∧ s'.rest = tail ∧ Dirty s' ∧
+      s'.lastComment = (LMember.method g1 n g4 i g5 g5' o).pend s.lastComment := by
   simp only [LMember.fits, Bool.and_eq_true, Bool.not_eq_true'] at hfit
   obtain ⟨⟨⟨⟨⟨⟨⟨⟨hg1, _⟩, hn⟩, hg4⟩, hsep⟩, hi⟩, hg5⟩, hg5'⟩, ho⟩ := hfit
   unfold readMethod at hnc ⊢
   obtain ⟨c, w, rfl, hc, hw⟩ := typeName_split hn
-  obtain ⟨s1, h1, hr1, _⟩ := advance_fwd h hg1 (tailOk_append (notLay_of_upper hc)) hnc.of_bind
+  obtain ⟨s1, h1, hr1, hl1⟩ := advance_fwd_lc h hg1 (tailOk_append (notLay_of_upper hc)) hds hnc.of_bind
   rw [bind_ok_eq h1] at hnc ⊢
   have h2 := readTypeName_fwd hr1 hc hw (stop_sep hi hsep _).alnum hnc.of_bind
   rw [bind_ok_eq h2] at hnc ⊢
   simp only at hnc ⊢
   rw [if_neg (by simp)] at hnc ⊢
-  obtain ⟨s3, h3, hr3, _⟩ := advance_fwd
+  obtain ⟨s3, h3, hr3, hl3⟩ := advance_fwd_lc
     (s := s1.adv (c :: w) (renderGap g4 (i.render (renderGap g5 (tArrow ++ renderGap g5' (o.render tail))))))
     (g := g4) (tail := i.render (renderGap g5 (tArrow ++ renderGap g5' (o.render tail)))) rfl hg4
-    (tailOk_ty hi _) hnc.of_bind
+    (tailOk_ty hi _) (dirty_adv (isBlank_cons_false (notLay_of_upper hc))) hnc.of_bind
   rw [bind_ok_eq h3] at hnc ⊢
-  obtain ⟨s4, h4, hr4, _⟩ := readType_fwd i _ s3 _ hi hr3
-    (stop_renderGap g5 (stop_cons _ (by decide))) hnc.of_bind
+  obtain ⟨s4, h4, hr4, hd4, hl4⟩ := readType_fwd i _ s3 _ hi hr3
+    (fun _ => stop_renderGap g5 (stop_cons (c := 45) _ (by decide))) hnc.of_bind
   rw [bind_ok_eq h4] at hnc ⊢
   simp only at hnc ⊢
-  obtain ⟨s5, h5, hr5, _⟩ := advance_fwd (tail := 45 :: 62 :: renderGap g5' (o.render tail)) hr4 hg5
-    (tailOk_cons _ (by decide)) hnc.of_bind
+  obtain ⟨s5, h5, hr5, hl5⟩ := advance_fwd_lc (tail := 45 :: 62 :: renderGap g5' (o.render tail)) hr4 hg5
+    (tailOk_cons _ (by decide)) hd4 hnc.of_bind
   rw [bind_ok_eq h5] at hnc ⊢
   rw [next_cons hr5] at hnc ⊢
   simp only at hnc ⊢
   rw [next_cons (s := s5.adv [45] (62 :: renderGap g5' (o.render tail))) (c := 62) rfl] at hnc ⊢
   simp only at hnc ⊢
   rw [if_neg (by simp)] at hnc ⊢
-  obtain ⟨s8, h8, hr8, _⟩ := advance_fwd
+  obtain ⟨s8, h8, hr8, hl8⟩ := advance_fwd_lc
     (s := (s5.adv [45] (62 :: renderGap g5' (o.render tail))).adv [62] (renderGap g5' (o.render tail)))
-    (g := g5') (tail := o.render tail) rfl hg5' (tailOk_ty ho tail) hnc.of_bind
+    (g := g5') (tail := o.render tail) rfl hg5' (tailOk_ty ho tail) (dirty_adv (by decide)) hnc.of_bind
   rw [bind_ok_eq h8] at hnc ⊢
-  obtain ⟨s9, h9, hr9, hd9⟩ := readType_fwd o _ s8 tail ho hr8 hstop hnc.of_bind
+  obtain ⟨s9, h9, hr9, hd9, hl9⟩ := readType_fwd o _ s8 tail ho hr8 hstop hnc.of_bind
   rw [bind_ok_eq h9]
-  exact ⟨s9, rfl, hr9, hd9⟩
+  simp only [St.adv_lastComment] at hl3 hl8
+  exact ⟨s9, rfl, hr9, hd9, by rw [hl9, hl8, hl5, hl4, hl3, hl1]; rfl⟩
 
-/-- the rendering of a gap of spaces and tabs -/
-theorem onLine_render : ∀ (g : Gap) (x : Bytes), g.onLine = true →
-    ∃ w, renderGap g x = w ++ x ∧ ∀ c ∈ w, isSpTab c = true
-  | [], x, _ => ⟨[], rfl, fun _ h => absurd h List.not_mem_nil⟩
+/-! ### `peek`: the look-ahead of `readError` -/
+
+theorem peekLoop_comment_end : ∀ (t : Bytes), t.all (fun c => c != 10) = true → peekLoop true t = none
+  | [], _ => rfl
+  | c :: t, h => by
+    simp only [List.all_cons, Bool.and_eq_true, bne_iff_ne, ne_eq] at h
+    unfold peekLoop
+    rw [if_neg h.1, if_pos (by simp)]
+    exact peekLoop_comment_end t h.2
+
+theorem peekLoop_comment_text : ∀ (t r : Bytes), t.all (fun c => c != 10) = true →
+    peekLoop true (t ++ 10 :: r) = peekLoop false r
+  | [], r, _ => by
+    show peekLoop true (10 :: r) = _
+    conv => lhs; unfold peekLoop
+    rw [if_pos rfl]
+  | c :: t, r, h => by
+    simp only [List.all_cons, Bool.and_eq_true, bne_iff_ne, ne_eq] at h
+    rw [List.cons_append]
+    conv => lhs; unfold peekLoop
+    rw [if_neg h.1, if_pos (by simp)]
+    exact peekLoop_comment_text t r h.2
+
+/-- the look-ahead skips one atom of a gap -/
+theorem peekLoop_atom {a : Atom} (ha : a.wf = true) (r : Bytes) : peekLoop false (a.render ++ r) = peekLoop false r := by
+  cases a with
+  | sp => show peekLoop false (32 :: r) = _; conv => lhs; unfold peekLoop
+          rw [if_neg (by decide), if_pos (by simp)]
+  | tab => show peekLoop false (9 :: r) = _; conv => lhs; unfold peekLoop
+           rw [if_neg (by decide), if_pos (by simp)]
+  | cr => show peekLoop false (13 :: r) = _; conv => lhs; unfold peekLoop
+          rw [if_neg (by decide), if_pos (by simp)]
+  | nl => show peekLoop false (10 :: r) = _; conv => lhs; unfold peekLoop
+          rw [if_pos rfl]
+  | comment t =>
+    have e : (Atom.comment t).render ++ r = 35 :: (t ++ 10 :: r) := by simp [Atom.render]
+    rw [e]
+    conv => lhs; unfold peekLoop
+    rw [if_neg (by decide), if_neg (by simp), if_pos rfl]
+    exact peekLoop_comment_text t r (by simpa [Atom.wf] using ha)
+
+/-- … hence a whole gap: line breaks and comments included -/
+theorem peekLoop_gap : ∀ (g : Gap) (x : Bytes), g.wf = true → peekLoop false (renderGap g x) = peekLoop false x
+  | [], _, _ => rfl
   | a :: g, x, h => by
-    simp only [Gap.onLine, List.all_cons, Bool.and_eq_true] at h
-    obtain ⟨w, hw, hall⟩ := onLine_render g x h.2
-    cases a <;> simp [Atom.isSpTab] at h
-    · refine ⟨32 :: w, by simp [renderGap, Atom.render, hw], ?_⟩
-      intro c hc; rcases List.mem_cons.mp hc with rfl | hc
-      · decide
-      · exact hall c hc
-    · refine ⟨9 :: w, by simp [renderGap, Atom.render, hw], ?_⟩
-      intro c hc; rcases List.mem_cons.mp hc with rfl | hc
-      · decide
-      · exact hall c hc
+    simp only [Gap.wf, List.all_cons, Bool.and_eq_true] at h
+    simp only [renderGap]
+    rw [peekLoop_atom h.1, peekLoop_gap g x h.2]
 
-theorem lay_stopAt_spTab {x : Bytes} (h : TailOk x) : StopAt isSpTab x := by
-  cases x with
-  | nil => trivial
-  | cons c r =>
-    simp only [TailOk, isLay, Bool.or_eq_false_iff, decide_eq_false_iff_not] at h
-    simp [StopAt, isSpTab, h.1.1.1.1, h.1.1.1.2]
+/-- it stops at the first byte of a token -/
+theorem peekLoop_tok {c : UInt8} (x : Bytes) (h : isLay c = false) : peekLoop false (c :: x) = some c := by
+  simp only [isLay, Bool.or_eq_false_iff, decide_eq_false_iff_not] at h
+  obtain ⟨⟨⟨⟨h1, h2⟩, h3⟩, h4⟩, h5⟩ := h
+  unfold peekLoop
+  rw [if_neg h4, if_neg (by simp [h1, h2, h3]), if_neg h5]
 
-theorem dirty_adv_blank {s : St} {w r : Bytes} (h : Dirty s) : Dirty (s.adv w r) := dirty_adv_of_dirty h
+/-- at the end of the input, or in front of a last comment without line feed, it finds nothing -/
+theorem peekLoop_final (fc : Option Bytes)
+    (hfc : (match fc with | none => true | some t => t.all (fun c => c != 10)) = true) :
+    peekLoop false (renderFinal fc) = none := by
+  cases fc with
+  | none => rfl
+  | some t =>
+    show peekLoop false (35 :: t) = none
+    unfold peekLoop
+    rw [if_neg (by decide), if_neg (by simp), if_pos rfl]
+    exact peekLoop_comment_end t hfc
+
+/-! ### errors -/
 
 theorem readError_fwd {s : St} {g1 g6 : Gap} {n tail : Bytes} {t : LTy}
     (hfit : (LMember.error g1 n g6 t).fits = true)
-    (h : s.rest = renderGap g1 (n ++ renderGap g6 (t.render tail))) (hstop : Stop tail)
-    (hnc : NoCrash (readError s)) :
-    ∃ s', readError s = .ok (.error n s.lastComment (some t.erase), s') ∧ s'.rest = tail ∧ Dirty s' := by
+    (h : s.rest = renderGap g1 (n ++ renderGap g6 (t.render tail))) (hstop : t.endsWord = true → Stop tail)
+    (hds : Dirty s) (hnc : NoCrash (readError s)) :
+    ∃ s', readError s = .ok (.error n s.lastComment (some t.erase), s') ∧ s'.rest = tail ∧ Dirty s' ∧
+      s'.lastComment = (LMember.error g1 n g6 t).pend s.lastComment := by
   simp only [LMember.fits, Bool.and_eq_true, Bool.not_eq_true'] at hfit
-  obtain ⟨⟨⟨⟨⟨hg1, _⟩, hn⟩, hg6⟩, hsep⟩, ht⟩ := hfit
+  obtain ⟨⟨⟨⟨⟨hg1, _⟩, hn⟩, hg6⟩, hlist⟩, ht⟩ := hfit
+  obtain ⟨x, hx⟩ := LTy.render_list hlist tail
   unfold readError at hnc ⊢
   obtain ⟨c, w, rfl, hc, hw⟩ := typeName_split hn
-  obtain ⟨s1, h1, hr1, _⟩ := advance_fwd h hg1 (tailOk_append (notLay_of_upper hc)) hnc.of_bind
+  obtain ⟨s1, h1, hr1, hl1⟩ := advance_fwd_lc h hg1 (tailOk_append (notLay_of_upper hc)) hds hnc.of_bind
   rw [bind_ok_eq h1] at hnc ⊢
-  have h2 := readTypeName_fwd hr1 hc hw (stop_sep ht hsep tail).alnum hnc.of_bind
+  have hstopn : Stop (renderGap g6 (t.render tail)) :=
+    stop_renderGap_of g6 _ (Or.inr (by rw [hx]; exact stop_cons _ (by decide)))
+  have h2 := readTypeName_fwd hr1 hc hw hstopn.alnum hnc.of_bind
   rw [bind_ok_eq h2] at hnc ⊢
   simp only at hnc ⊢
   rw [if_neg (by simp)] at hnc ⊢
-  obtain ⟨b, hb, hball⟩ := onLine_render g6 (t.render tail) hg6
-  have h3 : advanceOnLine (s1.adv (c :: w) (renderGap g6 (t.render tail))) =
-      .ok ((s1.adv (c :: w) (renderGap g6 (t.render tail))).adv b (t.render tail)) :=
-    scan_fwd isSpTab b _ _ _ hb hball (lay_stopAt_spTab (tailOk_ty ht tail)) hnc.of_bind
+  -- the look-ahead finds the `(` behind the gap, whatever the gap holds
+  have hpeek : peek (s1.adv (c :: w) (renderGap g6 (t.render tail))) = some 40 := by
+    show peekLoop false (renderGap g6 (t.render tail)) = some 40
+    rw [peekLoop_gap g6 _ hg6, hx]
+    exact peekLoop_tok x (by decide)
+  rw [if_neg (by rw [hpeek]; simp)] at hnc ⊢
+  obtain ⟨s3, h3, hr3, hl3⟩ := advance_fwd_lc (s := s1.adv (c :: w) (renderGap g6 (t.render tail))) (g := g6)
+    (tail := t.render tail) rfl hg6 (tailOk_ty ht tail) (dirty_adv (isBlank_cons_false (notLay_of_upper hc))) hnc.of_bind
   rw [bind_ok_eq h3] at hnc ⊢
-  obtain ⟨s4, h4, hr4, hd4⟩ := readType_fwd t _ _ tail ht rfl hstop hnc.of_bind
+  obtain ⟨s4, h4, hr4, hd4, hl4⟩ := readType_fwd t _ s3 tail ht hr3 hstop hnc.of_bind
   rw [bind_ok_eq h4]
-  exact ⟨s4, rfl, hr4, hd4⟩
+  simp only [St.adv_lastComment] at hl3
+  exact ⟨s4, rfl, hr4, hd4, by rw [hl4, hl3, hl1]; rfl⟩
 
-/-! ### an error without a type -/
-
-/-- where `readType` finds nothing that could start a type it returns `nil` without moving -/
-theorem readType_nothing {f : Nat} {s : St} (h : s.rest = [] ∨ ∃ c r, s.rest = c :: r ∧ (c = 13 ∨ c = 10 ∨ c = 35))
-    (hnc : NoCrash (readType f s)) : readType f s = .ok (none, s) := by
-  obtain ⟨f0, rfl⟩ := readType_fuel hnc
-  have hlow : StopAt isLower s.rest := by
-    rcases h with h | ⟨c, r, h, hc⟩ <;> rw [h]
-    · trivial
-    · rcases hc with rfl | rfl | rfl <;> (show isLower _ = false; decide)
-  have hup : StopAt isUpper s.rest := by
-    rcases h with h | ⟨c, r, h, hc⟩ <;> rw [h]
-    · trivial
-    · rcases hc with rfl | rfl | rfl <;> (show isUpper _ = false; decide)
-  have hdef : readType (f0 + 1) s = (do
-      let (kw, s1) ← readKeyword s
-      if kw ≠ [] then
-        if kw = kwBool then .ok (some .bool, s1)
-        else if kw = kwInt then .ok (some .int, s1)
-        else if kw = kwFloat then .ok (some .float, s1)
-        else if kw = kwString then .ok (some .string, s1)
-        else if kw = kwObject then .ok (some .object, s1)
-        else .ok (none, s1)
-      else
-        let (name, s2) ← readTypeName s1
-        if name ≠ [] then .ok (some (.named name), s2)
-        else readStructType f0 s2) := by
-    rcases h with h | ⟨c, r, h, hc⟩
-    · conv => lhs; unfold readType
-      have := next_nil h
-      rcases hn : next s with ⟨c, s1⟩
-      rw [hn] at this; simp only at this; subst this
-      rfl
-    · exact readType_default h (by rcases hc with rfl | rfl | rfl <;> decide) (by rcases hc with rfl | rfl | rfl <;> decide)
-  rw [hdef] at hnc ⊢
-  have h1 := readKeyword_none hlow hnc.of_bind
-  rw [bind_ok_eq h1] at hnc ⊢
-  simp only [ne_eq, not_true_eq_false, ↓reduceIte] at hnc ⊢
-  have h2 := readTypeName_none hup
-  rw [bind_ok_eq h2] at hnc ⊢
-  simp only [ne_eq, not_true_eq_false, ↓reduceIte] at hnc ⊢
-  obtain ⟨f1, rfl⟩ := readStructType_fuel hnc
-  unfold readStructType
-  rcases h with h | ⟨c, r, h, hc⟩
-  · have := next_nil h
-    rcases hn : next s with ⟨c, s1⟩
-    rw [hn] at this; simp only at this; subst this
-    rfl
-  · rw [next_cons h]
-    simp only
-    rw [if_pos (by rcases hc with rfl | rfl | rfl <;> simp)]
-
-/-- the spaces and tabs at the start of a gap, and what is left of the gap -/
-theorem gap_split_spTab : ∀ (g : Gap) (x : Bytes),
-    ∃ w, renderGap g x = w ++ renderGap (g.dropWhile Atom.isSpTab) x ∧ ∀ c ∈ w, isSpTab c = true
-  | [], x => ⟨[], rfl, fun _ h => absurd h List.not_mem_nil⟩
-  | a :: g, x => by
-    obtain ⟨w, hw, hall⟩ := gap_split_spTab g x
-    cases a with
-    | sp =>
-      refine ⟨32 :: w, by simp [renderGap, Atom.render, List.dropWhile, Atom.isSpTab, hw], ?_⟩
-      intro c hc; rcases List.mem_cons.mp hc with rfl | hc
-      · decide
-      · exact hall c hc
-    | tab =>
-      refine ⟨9 :: w, by simp [renderGap, Atom.render, List.dropWhile, Atom.isSpTab, hw], ?_⟩
-      intro c hc; rcases List.mem_cons.mp hc with rfl | hc
-      · decide
-      · exact hall c hc
-    | cr => exact ⟨[], by simp [List.dropWhile, Atom.isSpTab], fun _ h => absurd h List.not_mem_nil⟩
-    | nl => exact ⟨[], by simp [List.dropWhile, Atom.isSpTab], fun _ h => absurd h List.not_mem_nil⟩
-    | comment t => exact ⟨[], by simp [List.dropWhile, Atom.isSpTab], fun _ h => absurd h List.not_mem_nil⟩
-
-theorem dropWhile_cons_head : ∀ {g : Gap} {a : Atom} {g' : Gap}, g.dropWhile Atom.isSpTab = a :: g' → a.isSpTab = false
-  | [], _, _, h => by simp at h
-  | b :: g, a, g', h => by
-    simp only [List.dropWhile] at h
-    split at h
-    · exact dropWhile_cons_head h
-    · rename_i hb
-      cases h
-      simpa using hb
-
-/-- what stands behind the spaces and tabs: the end, a `#`, or the line break of the gap -/
-theorem gap_rest_head (g : Gap) (x : Bytes)
-    (h : g.dropWhile Atom.isSpTab ≠ [] ∨ x = [] ∨ ∃ r, x = 35 :: r) :
-    renderGap (g.dropWhile Atom.isSpTab) x = [] ∨
-      ∃ c r, renderGap (g.dropWhile Atom.isSpTab) x = c :: r ∧ (c = 13 ∨ c = 10 ∨ c = 35) := by
-  cases hd : g.dropWhile Atom.isSpTab with
-  | nil =>
-    rw [hd] at h
-    rcases h with h | h | ⟨r, h⟩
-    · exact absurd rfl h
-    · left; simp [renderGap, h]
-    · right; exact ⟨35, r, by simp [renderGap, h], Or.inr (Or.inr rfl)⟩
-  | cons a g' =>
-    have hna : a.isSpTab = false := dropWhile_cons_head hd
-    right
-    cases a with
-    | sp => simp [Atom.isSpTab] at hna
-    | tab => simp [Atom.isSpTab] at hna
-    | cr => exact ⟨13, _, rfl, Or.inl rfl⟩
-    | nl => exact ⟨10, _, rfl, Or.inr (Or.inl rfl)⟩
-    | comment t => exact ⟨35, _, rfl, Or.inr (Or.inr rfl)⟩
-
-theorem stop_of_head {x : Bytes} (h : x = [] ∨ ∃ c r, x = c :: r ∧ (c = 13 ∨ c = 10 ∨ c = 35)) : Stop x := by
-  rcases h with rfl | ⟨c, r, rfl, hc⟩
-  · trivial
-  · rcases hc with rfl | rfl | rfl <;> (show isFieldChar _ = false; decide)
-
-theorem readErrorBare_fwd {s : St} {g1 g : Gap} {n x : Bytes}
+/-- an error without parameters: the look-ahead finds no `(`, the cursor stays right behind the name -/
+theorem readErrorBare_fwd {s : St} {g1 : Gap} {n x : Bytes}
     (hfit : (LMember.errorBare g1 n).fits = true)
-    (h : s.rest = renderGap g1 (n ++ renderGap g x))
-    (hg : g.dropWhile Atom.isSpTab ≠ [] ∨ x = [] ∨ ∃ r, x = 35 :: r)
-    (hnc : NoCrash (readError s)) :
-    ∃ s', readError s = .ok (.error n s.lastComment none, s') ∧
-      s'.rest = renderGap (g.dropWhile Atom.isSpTab) x ∧ Dirty s' := by
+    (h : s.rest = renderGap g1 (n ++ x)) (hstop : Stop x) (hpeek : peekLoop false x ≠ some 40)
+    (hds : Dirty s) (hnc : NoCrash (readError s)) :
+    ∃ s', readError s = .ok (.error n s.lastComment none, s') ∧ s'.rest = x ∧ Dirty s' ∧
+      s'.lastComment = (LMember.errorBare g1 n).pend s.lastComment := by
   simp only [LMember.fits, Bool.and_eq_true, Bool.not_eq_true'] at hfit
   obtain ⟨⟨hg1, _⟩, hn⟩ := hfit
   unfold readError at hnc ⊢
   obtain ⟨c, w, rfl, hc, hw⟩ := typeName_split hn
-  obtain ⟨s1, h1, hr1, _⟩ := advance_fwd h hg1 (tailOk_append (notLay_of_upper hc)) hnc.of_bind
+  obtain ⟨s1, h1, hr1, hl1⟩ := advance_fwd_lc h hg1 (tailOk_append (notLay_of_upper hc)) hds hnc.of_bind
   rw [bind_ok_eq h1] at hnc ⊢
-  obtain ⟨b, hb, hball⟩ := gap_split_spTab g x
-  have hhead := gap_rest_head g x hg
-  have hstopx : Stop (renderGap g x) := by
-    rw [hb]
-    cases b with
-    | nil => exact stop_of_head hhead
-    | cons d b' =>
-      have := hball d List.mem_cons_self
-      simp only [isSpTab, Bool.or_eq_true, decide_eq_true_eq] at this
-      rcases this with rfl | rfl <;> (show isFieldChar _ = false; decide)
-  have h2 := readTypeName_fwd hr1 hc hw hstopx.alnum hnc.of_bind
+  have h2 := readTypeName_fwd hr1 hc hw hstop.alnum hnc.of_bind
   rw [bind_ok_eq h2] at hnc ⊢
   simp only at hnc ⊢
   rw [if_neg (by simp)] at hnc ⊢
-  have hsp : StopAt isSpTab (renderGap (g.dropWhile Atom.isSpTab) x) := by
-    rcases hhead with h0 | ⟨d, r, h0, hd⟩ <;> rw [h0]
-    · trivial
-    · rcases hd with rfl | rfl | rfl <;> (show isSpTab _ = false; decide)
-  have h3 : advanceOnLine (s1.adv (c :: w) (renderGap g x)) =
-      .ok ((s1.adv (c :: w) (renderGap g x)).adv b (renderGap (g.dropWhile Atom.isSpTab) x)) :=
-    scan_fwd isSpTab b _ _ _ hb hball hsp hnc.of_bind
-  rw [bind_ok_eq h3] at hnc ⊢
-  have h4 := readType_nothing (s := (s1.adv (c :: w) (renderGap g x)).adv b (renderGap (g.dropWhile Atom.isSpTab) x))
-    hhead hnc.of_bind
-  rw [bind_ok_eq h4]
-  simp only [ne_eq, not_true_eq_false, ↓reduceIte]
-  exact ⟨_, rfl, rfl, dirty_adv_of_dirty (dirty_adv (isBlank_cons_false (notLay_of_upper hc)))⟩
+  have hp : peek (s1.adv (c :: w) x) ≠ some 40 := hpeek
+  rw [if_pos hp]
+  exact ⟨_, rfl, rfl, dirty_adv (isBlank_cons_false (notLay_of_upper hc)), hl1⟩
 
 /-! ### the member loop -/
 
@@ -1411,35 +1383,7 @@ theorem renderMembers_eq (r : List (Gap × LMember)) (gEnd : Gap) (fc : Option B
   | nil => rfl
   | cons p r => obtain ⟨g, m⟩ := p; rfl
 
-/-- a gap, or what an error without a type leaves of it (the spaces and tabs in front are consumed by
-    `advanceOnLine`) -/
-def GapRest (g g' : Gap) : Prop := g' = g ∨ g' = g.dropWhile Atom.isSpTab
-
-theorem dropWhile_wf : ∀ (g : Gap), g.wf = true → Gap.wf (g.dropWhile Atom.isSpTab) = true
-  | [], _ => rfl
-  | a :: g, h => by
-    simp only [Gap.wf, List.all_cons, Bool.and_eq_true] at h
-    simp only [List.dropWhile]
-    split
-    · exact dropWhile_wf g h.2
-    · simp [Gap.wf, h.1, h.2]
-
-theorem GapRest.wf {g g' : Gap} (h : GapRest g g') (hw : g.wf = true) : g'.wf = true := by
-  rcases h with rfl | rfl
-  · exact hw
-  · exact dropWhile_wf g hw
-
-theorem gapDoc_dropWhile : ∀ (g : Gap) (st : Bool × Bytes), gapDoc st (g.dropWhile Atom.isSpTab) = gapDoc st g
-  | [], _ => rfl
-  | a :: g, st => by
-    simp only [List.dropWhile]
-    split
-    · rename_i ha
-      have : docStep st a = st := by cases a <;> simp_all [Atom.isSpTab, docStep]
-      rw [gapDoc_dropWhile g st]
-      simp [gapDoc, this]
-    · rfl
-
+/-- a gap with a line break forgets what was pending in front of it -/
 theorem gapDoc_break : ∀ (g : Gap) (lc : Bytes), g.hasBreak = true → gapDoc (false, lc) g = gapDoc (false, []) g
   | [], _, h => by simp [Gap.hasBreak] at h
   | a :: g, lc, h => by
@@ -1451,56 +1395,59 @@ theorem gapDoc_break : ∀ (g : Gap) (lc : Bytes), g.hasBreak = true → gapDoc 
     | nl => simp [gapDoc, docStep]
     | comment t => simp [gapDoc, docStep]
 
-theorem doc_of_gapRest {s : St} {g g' : Gap} (hd : Dirty s) (hb : g.hasBreak = true) (h : GapRest g g') :
-    (gapDoc (dst s) g').2 = docOf g := by
-  have : dst s = (false, s.lastComment) := by unfold dst; rw [show isBlank s.line = false from hd]
-  rw [this]
-  rcases h with rfl | rfl
-  · rw [gapDoc_break _ _ hb]; rfl
-  · rw [gapDoc_dropWhile, gapDoc_break _ _ hb]; rfl
-
-theorem dropWhile_ne_nil_of_break : ∀ (g : Gap), g.hasBreak = true → g.dropWhile Atom.isSpTab ≠ []
-  | [], h => by simp [Gap.hasBreak] at h
-  | a :: g, h => by
-    simp only [Gap.hasBreak, List.any_cons, Bool.or_eq_true] at h
-    simp only [List.dropWhile]
-    split
-    · rename_i ha
-      apply dropWhile_ne_nil_of_break g
-      rcases h with h | h
-      · cases a <;> simp_all [Atom.isSpTab, Atom.isBreak]
-      · exact h
-    · simp
+/-- the documentation of a member that starts on a new line is `docOf` of the gap in front of it -/
+theorem gapPend_break (g : Gap) (lc : Bytes) (h : g.hasBreak = true) : gapPend lc g = docOf g := by
+  unfold docOf gapPend; rw [gapDoc_break g lc h]
 
 theorem renderFinal_head (fc : Option Bytes) : renderFinal fc = [] ∨ ∃ r, renderFinal fc = 35 :: r := by
   cases fc with
   | none => exact Or.inl rfl
   | some t => exact Or.inr ⟨t, rfl⟩
 
-/-- behind a member: a gap with a line break, or the end gap and possibly a last comment -/
-theorem after_member_ok (r : List (Gap × LMember)) (gEnd : Gap) (fc : Option Bytes) (hr : membersFit r = true) :
-    (nextGap r gEnd).dropWhile Atom.isSpTab ≠ [] ∨ afterText r gEnd fc = [] ∨ ∃ x, afterText r gEnd fc = 35 :: x := by
+theorem renderFinal_stop (fc : Option Bytes) : Stop (renderFinal fc) := by
+  rcases renderFinal_head fc with h | ⟨r, h⟩ <;> rw [h]
+  · trivial
+  · exact stop_cons _ (by decide)
+
+/-- a member starts with its keyword -/
+theorem LMember.render_head (m : LMember) (tl : Bytes) :
+    ∃ c x, m.render tl = c :: x ∧ isLay c = false ∧ c ≠ 40 := by
+  cases m with
+  | alias g1 n g4 t => exact ⟨116, _, rfl, by decide, by decide⟩
+  | method g1 n g4 i g5 g5' o => exact ⟨109, _, rfl, by decide, by decide⟩
+  | errorBare g1 n => exact ⟨101, _, rfl, by decide, by decide⟩
+  | error g1 n g6 t => exact ⟨101, _, rfl, by decide, by decide⟩
+
+/-- behind a member that ends in a word: a non-empty gap, the end of the input or a last comment -/
+theorem stop_after_member (r : List (Gap × LMember)) (gEnd : Gap) (fc : Option Bytes)
+    (hr : membersFit true r = true) : Stop (renderGap (nextGap r gEnd) (afterText r gEnd fc)) := by
   cases r with
-  | nil => exact Or.inr (renderFinal_head fc)
+  | nil => exact stop_renderGap gEnd (renderFinal_stop fc)
+  | cons p r =>
+    obtain ⟨g, m⟩ := p
+    simp only [membersFit, Bool.and_eq_true, Bool.not_true, Bool.false_or, Bool.not_eq_true'] at hr
+    exact stop_renderGap_of g _ (Or.inl (by simpa using hr.1.1.2))
+
+/-- behind a member the look-ahead finds the next keyword or nothing, never a `(` -/
+theorem peek_after_member (r : List (Gap × LMember)) (gEnd : Gap) (fc : Option Bytes) (pw : Bool)
+    (hr : membersFit pw r = true) (hE : gEnd.wf = true)
+    (hfc : (match fc with | none => true | some t => t.all (fun c => c != 10)) = true) :
+    peekLoop false (renderGap (nextGap r gEnd) (afterText r gEnd fc)) ≠ some 40 := by
+  cases r with
+  | nil =>
+    show peekLoop false (renderGap gEnd (renderFinal fc)) ≠ some 40
+    rw [peekLoop_gap gEnd _ hE, peekLoop_final fc hfc]
+    simp
   | cons p r =>
     obtain ⟨g, m⟩ := p
     simp only [membersFit, Bool.and_eq_true] at hr
-    exact Or.inl (dropWhile_ne_nil_of_break g hr.1.1.2)
+    obtain ⟨c, x, hx, hc, h40⟩ := m.render_head (renderMembers r (renderGap gEnd (renderFinal fc)))
+    show peekLoop false (renderGap g (m.render _)) ≠ some 40
+    rw [peekLoop_gap g _ hr.1.1.1, hx, peekLoop_tok x hc]
+    simpa using h40
 
-theorem stop_after_member (r : List (Gap × LMember)) (gEnd : Gap) (fc : Option Bytes) (hr : membersFit r = true) :
-    Stop (renderGap (nextGap r gEnd) (afterText r gEnd fc)) := by
-  obtain ⟨b, hb, hball⟩ := gap_split_spTab (nextGap r gEnd) (afterText r gEnd fc)
-  have hhead := gap_rest_head _ _ (after_member_ok r gEnd fc hr)
-  rw [hb]
-  cases b with
-  | nil => exact stop_of_head hhead
-  | cons d b' =>
-    have := hball d List.mem_cons_self
-    simp only [isSpTab, Bool.or_eq_true, decide_eq_true_eq] at this
-    rcases this with rfl | rfl <;> (show isFieldChar _ = false; decide)
-
-theorem nextGap_wf (r : List (Gap × LMember)) (gEnd : Gap) (hr : membersFit r = true) (hE : gEnd.wf = true) :
-    (nextGap r gEnd).wf = true := by
+theorem nextGap_wf (r : List (Gap × LMember)) (gEnd : Gap) (pw : Bool) (hr : membersFit pw r = true)
+    (hE : gEnd.wf = true) : (nextGap r gEnd).wf = true := by
   cases r with
   | nil => exact hE
   | cons p r =>
@@ -1519,32 +1466,32 @@ theorem sat_ok {α} {o : Out α} {P : α → Prop} {a : α} (h : o.Sat P) (he : 
 
 theorem membersLoop_fwd (gEnd : Gap) (fc : Option Bytes) (hE : gEnd.wf = true)
     (hfc : (match fc with | none => true | some t => t.all (fun c => c != 10)) = true) :
-    ∀ (r : List (Gap × LMember)) (f : Nat) (s : St) (g' : Gap) (names : List Bytes) (acc : List Member),
-    membersFit r = true → GapRest (nextGap r gEnd) g' → s.rest = renderGap g' (afterText r gEnd fc) →
+    ∀ (r : List (Gap × LMember)) (pw : Bool) (f : Nat) (s : St) (names : List Bytes) (acc : List Member),
+    membersFit pw r = true → s.rest = renderGap (nextGap r gEnd) (afterText r gEnd fc) →
     WF s → s.rest.length < f → Dirty s →
     (∀ p ∈ r, p.2.name ∉ names) → uniqueNames (r.map fun p => p.2.name) = true →
-    ∃ s', membersLoop f s names acc = .ok (acc.reverse ++ r.map (fun p => p.2.erase (docOf p.1)), s') := by
+    ∃ s', membersLoop f s names acc = .ok (acc.reverse ++ membersTree s.lastComment r, s') := by
   intro r
   induction r with
   | nil =>
-    intro f s g' names acc _ hgr h hw hf _ _ _
+    intro pw f s names acc _ h hw hf _ _ _
     have hnc : NoCrash (membersLoop f s names acc) := (membersLoop_sat f s names acc hw hf).noCrash
     obtain ⟨f0, rfl⟩ : ∃ f0, f = f0 + 1 := by
       cases f with
       | zero => exact absurd rfl hnc.2
       | succ f0 => exact ⟨f0, rfl⟩
     unfold membersLoop at hnc ⊢
-    obtain ⟨s1, h1, hr1⟩ := advanceLoop_fwd_end g' _ s fc h (hgr.wf hE) hfc hnc.of_bind
+    obtain ⟨s1, h1, hr1⟩ := advanceLoop_fwd_end gEnd _ s fc h hE hfc hnc.of_bind
     have hw1 : WF s1 := (sat_ok (advance_sat hw) h1).1
     rw [show advance s = .ok s1 from h1, bind_ok_eq rfl]
     rw [if_pos (by rw [more_of_wf hw1, hr1]; rfl)]
-    exact ⟨s1, by simp⟩
+    exact ⟨s1, by simp [membersTree]⟩
   | cons p r ih =>
     obtain ⟨g, m⟩ := p
-    intro f s g' names acc hfit hgr h hw hf hdirty hnames huniq
+    intro pw f s names acc hfit h hw hf hdirty hnames huniq
     simp only [membersFit, Bool.and_eq_true] at hfit
-    obtain ⟨⟨⟨hgw, hgb⟩, hm⟩, hrfit⟩ := hfit
-    simp only [nextGap] at hgr
+    obtain ⟨⟨⟨hgw, _⟩, hm⟩, hrfit⟩ := hfit
+    simp only [nextGap] at h
     simp only [afterText] at h
     rw [renderMembers_eq] at h
     have hnc : NoCrash (membersLoop f s names acc) := (membersLoop_sat f s names acc hw hf).noCrash
@@ -1562,36 +1509,35 @@ theorem membersLoop_fwd (gEnd : Gap) (fc : Option Bytes) (hE : gEnd.wf = true)
       rcases List.mem_cons.mp hmem with he | hmem
       · exact huniq'.2 (by rw [← he]; exact List.mem_map_of_mem (f := fun p => p.2.name) hp)
       · exact hnames p (List.mem_cons_of_mem _ hp) hmem
-    have hstopX := stop_after_member r gEnd fc hrfit
-    have hdoc : ∀ s1, dst s1 = gapDoc (dst s) g' → s1.lastComment = docOf g := by
-      intro s1 hd
-      have := doc_of_gapRest hdirty hgb hgr
-      rw [← hd] at this
-      exact this
+    -- behind a member that ends in a word the text does not continue the word
+    have hstopX : m.endsWord = true → Stop (renderGap (nextGap r gEnd) (afterText r gEnd fc)) := by
+      intro he; rw [he] at hrfit; exact stop_after_member r gEnd fc hrfit
     unfold membersLoop at hnc ⊢
     -- the continuation, once the member reader has delivered
-    have cont : ∀ (s3 : St) (g'' : Gap) (mem : Member) (e : PErr), mem = m.erase (docOf g) →
-        GapRest (nextGap r gEnd) g'' → s3.rest = renderGap g'' (afterText r gEnd fc) → Step s s3 → s.pos < s3.pos →
-        Dirty s3 →
+    have cont : ∀ (s3 : St) (mem : Member) (e : PErr), mem = m.erase (gapPend s.lastComment g) →
+        s3.rest = renderGap (nextGap r gEnd) (afterText r gEnd fc) → Step s s3 → s.pos < s3.pos →
+        Dirty s3 → s3.lastComment = m.pend (gapPend s.lastComment g) →
         ∃ s', (if names.contains mem.name = true then (Out.err e : Out (List Member × St))
           else membersLoop f0 s3 (mem.name :: names) (mem :: acc)) =
-          .ok (acc.reverse ++ ((g, m) :: r).map (fun p => p.2.erase (docOf p.1)), s') := by
-      intro s3 g'' mem e hmem hgr3 hr3 hst3 hpos3 hd3
+          .ok (acc.reverse ++ membersTree s.lastComment ((g, m) :: r), s') := by
+      intro s3 mem e hmem hr3 hst3 hpos3 hd3 hl3
       have hname : mem.name = m.name := by subst hmem; cases m <;> rfl
       rw [if_neg (by rw [hname]; simpa using hnotin)]
       have hlt : s3.rest.length < f0 := by have := Step.rest_lt hw hst3 hpos3; omega
-      obtain ⟨s', h'⟩ := ih f0 s3 g'' (mem.name :: names) (mem :: acc) hrfit hgr3 hr3 hst3.1 hlt hd3
+      obtain ⟨s', h'⟩ := ih m.endsWord f0 s3 (mem.name :: names) (mem :: acc) hrfit hr3 hst3.1 hlt hd3
         (by rw [hname]; exact hnames') huniq'.1
-      exact ⟨s', by rw [h', hmem]; simp⟩
+      exact ⟨s', by rw [h', hmem, hl3]; simp [membersTree]⟩
+    -- the gap in front of the keyword and the keyword itself
+    obtain ⟨kc, kx, hkx, hkc, _⟩ := m.render_head (renderGap (nextGap r gEnd) (afterText r gEnd fc))
+    obtain ⟨s1, h1, hr1, hl1⟩ := advance_fwd_lc h hgw (by rw [hkx]; exact hkc) hdirty hnc.of_bind
+    have hst1 : Step s s1 := sat_ok (advance_sat hw) h1
+    rw [bind_ok_eq h1] at hnc ⊢
+    rw [if_neg (by rw [more_of_wf hst1.1, hr1, hkx]; simp)] at hnc ⊢
     cases m with
     | alias g1 n g4 t =>
       have hfitm := hm
       simp only [LMember.fits, Bool.and_eq_true, Bool.not_eq_true'] at hm
-      simp only [LMember.render] at h
-      obtain ⟨s1, h1, hr1, hd1⟩ := advance_fwd h (hgr.wf hgw) (by exact (by decide : isLay 116 = false)) hnc.of_bind
-      have hst1 : Step s s1 := sat_ok (advance_sat hw) h1
-      rw [bind_ok_eq h1] at hnc ⊢
-      rw [if_neg (by rw [more_of_wf hst1.1, hr1]; simp [tType])] at hnc ⊢
+      simp only [LMember.render] at hr1
       have h2 := readKeyword_lit (k := tType) (by decide) hr1
         (stop_renderGap_of g1 _ (Or.inl hm.1.1.1.1.2)) hnc.of_bind
       have hst2 := sat_ok (readKeyword_sat hst1.1) h2
@@ -1599,20 +1545,17 @@ theorem membersLoop_fwd (gEnd : Gap) (fc : Option Bytes) (hE : gEnd.wf = true)
       simp only at hnc ⊢
       rw [if_pos (show tType = kwType from rfl)] at hnc ⊢
       have hsat3 := readAlias_sat hst2.1.1
-      obtain ⟨s3, h3, hr3, hd3⟩ := readAlias_fwd hfitm rfl hstopX hsat3.noCrash
+      obtain ⟨s3, h3, hr3, hd3, hl3⟩ := readAlias_fwd hfitm rfl hstopX (dirty_adv (by decide)) hsat3.noCrash
       have hst3 := sat_ok hsat3 h3
       rw [bind_ok_eq h3]
-      exact cont s3 _ _ _ (by simp [LMember.erase, St.adv, hdoc s1 hd1]) (Or.inl rfl) hr3
+      exact cont s3 _ _ (by simp [LMember.erase, hl1]) hr3
         ((hst1.trans hst2.1).trans hst3)
         (by have := hst2.2 (by simp [tType]); have := hst1.2.2; have := hst3.2.2; simp only at *; omega) hd3
+        (by rw [hl3, St.adv_lastComment, hl1])
     | method g1 n g4 i g5 g5' o =>
       have hfitm := hm
       simp only [LMember.fits, Bool.and_eq_true, Bool.not_eq_true'] at hm
-      simp only [LMember.render] at h
-      obtain ⟨s1, h1, hr1, hd1⟩ := advance_fwd h (hgr.wf hgw) (by exact (by decide : isLay 109 = false)) hnc.of_bind
-      have hst1 : Step s s1 := sat_ok (advance_sat hw) h1
-      rw [bind_ok_eq h1] at hnc ⊢
-      rw [if_neg (by rw [more_of_wf hst1.1, hr1]; simp [tMethod])] at hnc ⊢
+      simp only [LMember.render] at hr1
       have h2 := readKeyword_lit (k := tMethod) (by decide) hr1
         (stop_renderGap_of g1 _ (Or.inl hm.1.1.1.1.1.1.1.2)) hnc.of_bind
       have hst2 := sat_ok (readKeyword_sat hst1.1) h2
@@ -1620,20 +1563,17 @@ theorem membersLoop_fwd (gEnd : Gap) (fc : Option Bytes) (hE : gEnd.wf = true)
       simp only at hnc ⊢
       rw [if_neg (show ¬ tMethod = kwType by decide), if_pos (show tMethod = kwMethod from rfl)] at hnc ⊢
       have hsat3 := readMethod_sat hst2.1.1
-      obtain ⟨s3, h3, hr3, hd3⟩ := readMethod_fwd hfitm rfl hstopX hsat3.noCrash
+      obtain ⟨s3, h3, hr3, hd3, hl3⟩ := readMethod_fwd hfitm rfl hstopX (dirty_adv (by decide)) hsat3.noCrash
       have hst3 := sat_ok hsat3 h3
       rw [bind_ok_eq h3]
-      exact cont s3 _ _ _ (by simp [LMember.erase, St.adv, hdoc s1 hd1]) (Or.inl rfl) hr3
+      exact cont s3 _ _ (by simp [LMember.erase, hl1]) hr3
         ((hst1.trans hst2.1).trans hst3)
         (by have := hst2.2 (by simp [tMethod]); have := hst1.2.2; have := hst3.2.2; simp only at *; omega) hd3
+        (by rw [hl3, St.adv_lastComment, hl1])
     | errorBare g1 n =>
       have hfitm := hm
       simp only [LMember.fits, Bool.and_eq_true, Bool.not_eq_true'] at hm
-      simp only [LMember.render] at h
-      obtain ⟨s1, h1, hr1, hd1⟩ := advance_fwd h (hgr.wf hgw) (by exact (by decide : isLay 101 = false)) hnc.of_bind
-      have hst1 : Step s s1 := sat_ok (advance_sat hw) h1
-      rw [bind_ok_eq h1] at hnc ⊢
-      rw [if_neg (by rw [more_of_wf hst1.1, hr1]; simp [tError])] at hnc ⊢
+      simp only [LMember.render] at hr1
       have h2 := readKeyword_lit (k := tError) (by decide) hr1
         (stop_renderGap_of g1 _ (Or.inl hm.1.2)) hnc.of_bind
       have hst2 := sat_ok (readKeyword_sat hst1.1) h2
@@ -1642,20 +1582,18 @@ theorem membersLoop_fwd (gEnd : Gap) (fc : Option Bytes) (hE : gEnd.wf = true)
       rw [if_neg (show ¬ tError = kwType by decide), if_neg (show ¬ tError = kwMethod by decide),
         if_pos (show tError = kwError from rfl)] at hnc ⊢
       have hsat3 := readError_sat hst2.1.1
-      obtain ⟨s3, h3, hr3, hd3⟩ := readErrorBare_fwd hfitm rfl (after_member_ok r gEnd fc hrfit) hsat3.noCrash
+      obtain ⟨s3, h3, hr3, hd3, hl3⟩ := readErrorBare_fwd hfitm rfl (hstopX rfl)
+        (peek_after_member r gEnd fc _ hrfit hE hfc) (dirty_adv (by decide)) hsat3.noCrash
       have hst3 := sat_ok hsat3 h3
       rw [bind_ok_eq h3]
-      exact cont s3 _ _ _ (by simp [LMember.erase, St.adv, hdoc s1 hd1]) (Or.inr rfl) hr3
+      exact cont s3 _ _ (by simp [LMember.erase, hl1]) hr3
         ((hst1.trans hst2.1).trans hst3)
         (by have := hst2.2 (by simp [tError]); have := hst1.2.2; have := hst3.2.2; simp only at *; omega) hd3
+        (by rw [hl3, St.adv_lastComment, hl1])
     | error g1 n g6 t =>
       have hfitm := hm
       simp only [LMember.fits, Bool.and_eq_true, Bool.not_eq_true'] at hm
-      simp only [LMember.render] at h
-      obtain ⟨s1, h1, hr1, hd1⟩ := advance_fwd h (hgr.wf hgw) (by exact (by decide : isLay 101 = false)) hnc.of_bind
-      have hst1 : Step s s1 := sat_ok (advance_sat hw) h1
-      rw [bind_ok_eq h1] at hnc ⊢
-      rw [if_neg (by rw [more_of_wf hst1.1, hr1]; simp [tError])] at hnc ⊢
+      simp only [LMember.render] at hr1
       have h2 := readKeyword_lit (k := tError) (by decide) hr1
         (stop_renderGap_of g1 _ (Or.inl hm.1.1.1.1.2)) hnc.of_bind
       have hst2 := sat_ok (readKeyword_sat hst1.1) h2
@@ -1664,12 +1602,13 @@ theorem membersLoop_fwd (gEnd : Gap) (fc : Option Bytes) (hE : gEnd.wf = true)
       rw [if_neg (show ¬ tError = kwType by decide), if_neg (show ¬ tError = kwMethod by decide),
         if_pos (show tError = kwError from rfl)] at hnc ⊢
       have hsat3 := readError_sat hst2.1.1
-      obtain ⟨s3, h3, hr3, hd3⟩ := readError_fwd hfitm rfl hstopX hsat3.noCrash
+      obtain ⟨s3, h3, hr3, hd3, hl3⟩ := readError_fwd hfitm rfl hstopX (dirty_adv (by decide)) hsat3.noCrash
       have hst3 := sat_ok hsat3 h3
       rw [bind_ok_eq h3]
-      exact cont s3 _ _ _ (by simp [LMember.erase, St.adv, hdoc s1 hd1]) (Or.inl rfl) hr3
+      exact cont s3 _ _ (by simp [LMember.erase, hl1]) hr3
         ((hst1.trans hst2.1).trans hst3)
         (by have := hst2.2 (by simp [tError]); have := hst1.2.2; have := hst3.2.2; simp only at *; omega) hd3
+        (by rw [hl3, St.adv_lastComment, hl1])
 
 /-! ### the interface name, readIDL, New -/
 
@@ -1774,16 +1713,16 @@ theorem interfaceName_head {n : Bytes} (hn : isInterfaceNameB n = true) : ∃ c 
       exact this c List.mem_cons_self
 
 theorem members_nonempty_head (ms : List (Gap × LMember)) (gEnd : Gap) (fc : Option Bytes)
-    (hfit : membersFit ms = true) (hm : ms.any (fun p => p.2.isMethod) = true) :
+    (hfit : membersFit true ms = true) (hm : ms.any (fun p => p.2.isMethod) = true) :
     ∃ c r, renderMembers ms (renderGap gEnd (renderFinal fc)) = c :: r ∧ isLay c = true := by
   cases ms with
   | nil => simp at hm
   | cons p ms =>
     obtain ⟨g, m⟩ := p
-    simp only [membersFit, Bool.and_eq_true] at hfit
+    simp only [membersFit, Bool.and_eq_true, Bool.not_true, Bool.false_or, Bool.not_eq_true'] at hfit
     have hb := hfit.1.1.2
     cases g with
-    | nil => simp [Gap.hasBreak] at hb
+    | nil => simp at hb
     | cons a g =>
       obtain ⟨c, r, hr, hc⟩ := a.render_head
       exact ⟨c, r ++ renderGap g (m.render (renderMembers ms (renderGap gEnd (renderFinal fc)))),
@@ -1792,19 +1731,18 @@ theorem members_nonempty_head (ms : List (Gap × LMember)) (gEnd : Gap) (fc : Op
 theorem erase_isMethod (m : LMember) (d : Bytes) : (m.erase d).isMethod = m.isMethod := by
   cases m <;> rfl
 
-theorem methods_ne_zero (ms : List (Gap × LMember)) (hm : ms.any (fun p => p.2.isMethod) = true) :
-    ((ms.map fun p => p.2.erase (docOf p.1)).filter Member.isMethod).length ≠ 0 := by
-  induction ms with
-  | nil => simp at hm
-  | cons p ms ih =>
+theorem methods_ne_zero : ∀ (ms : List (Gap × LMember)) (lc : Bytes), ms.any (fun p => p.2.isMethod) = true →
+    ((membersTree lc ms).filter Member.isMethod).length ≠ 0
+  | [], _, hm => by simp at hm
+  | (g, m) :: ms, lc, hm => by
     simp only [List.any_cons, Bool.or_eq_true] at hm
-    simp only [List.map_cons, List.filter_cons, erase_isMethod]
+    simp only [membersTree, List.filter_cons, erase_isMethod]
     split
     · simp
     · rename_i hp
       rcases hm with hm | hm
       · exact absurd hm hp
-      · exact ih hm
+      · exact methods_ne_zero ms _ hm
 
 /-- **Parse what was rendered**: a description rendered from a layouted tree inside the grammar is accepted with
     exactly the tree it denotes. -/
@@ -1826,7 +1764,7 @@ theorem New_render (L : LIdl) (hfit : L.fits = true) : New L.render = .ok L.tree
     exact congrArg Prod.snd hd1
   -- readIDL
   have hidl : ∃ s4, readIDL s = .ok (Idl.mk L.name (docOfStart L.g0) []
-      (L.members.map fun p => p.2.erase (docOf p.1)), s4) := by
+      (membersTree L.startPend L.members), s4) := by
     have hnc2 := (readIDL_sat hst1.1).noCrash
     unfold readIDL at hnc2 ⊢
     have hig1 : L.ig1.isEmpty = false := by simpa using hig1ne
@@ -1836,10 +1774,10 @@ theorem New_render (L : LIdl) (hfit : L.fits = true) : New L.render = .ok L.tree
     simp only at hnc2 ⊢
     rw [if_neg (by simp [tInterface, kwInterface])] at hnc2 ⊢
     obtain ⟨c, w, hcw, hc⟩ := interfaceName_head hname
-    obtain ⟨s2, h3, hr3, hd3⟩ := advance_fwd (s := s.adv tInterface (renderGap L.ig1 (L.name ++
+    obtain ⟨s2, h3, hr3, hl3⟩ := advance_fwd_lc (s := s.adv tInterface (renderGap L.ig1 (L.name ++
         renderMembers L.members (renderGap L.gEnd (renderFinal L.finalComment))))) (g := L.ig1)
       (tail := L.name ++ renderMembers L.members (renderGap L.gEnd (renderFinal L.finalComment))) rfl hig1w
-      (by rw [hcw]; exact tailOk_append hc) hnc2.of_bind
+      (by rw [hcw]; exact tailOk_append hc) (dirty_adv (by decide)) hnc2.of_bind
     have hst3 := sat_ok (advance_sat hst2.1) h3
     rw [bind_ok_eq h3] at hnc2 ⊢
     obtain ⟨d, r, hdr, hdl⟩ := members_nonempty_head L.members L.gEnd L.finalComment hms hmeth
@@ -1851,20 +1789,74 @@ theorem New_render (L : LIdl) (hfit : L.fits = true) : New L.render = .ok L.tree
     rw [if_neg (by simpa using hne)] at hnc2 ⊢
     have hdirty : Dirty (s2.adv L.name (renderMembers L.members (renderGap L.gEnd (renderFinal L.finalComment)))) := by
       rw [hcw]; exact dirty_adv (isBlank_cons_false hc)
-    obtain ⟨s4, h5⟩ := membersLoop_fwd L.gEnd L.finalComment hE hfc L.members
+    obtain ⟨s4, h5⟩ := membersLoop_fwd L.gEnd L.finalComment hE hfc L.members true
       ((s2.adv L.name (renderMembers L.members (renderGap L.gEnd (renderFinal L.finalComment)))).len + 2)
       (s2.adv L.name (renderMembers L.members (renderGap L.gEnd (renderFinal L.finalComment))))
-      (nextGap L.members L.gEnd) [] []
-      hms (Or.inl rfl) (by rw [← renderMembers_eq]; rfl) hst4.1 (by have := hst4.1.rest_le_len; simp only at this ⊢; omega)
+      [] []
+      hms (by rw [← renderMembers_eq]; rfl) hst4.1 (by have := hst4.1.rest_le_len; simp only at this ⊢; omega)
       hdirty (fun _ _ h => absurd h List.not_mem_nil) huniq
     rw [bind_ok_eq h5]
-    exact ⟨s4, by simp [St.adv, hdoc1]⟩
+    refine ⟨s4, ?_⟩
+    simp only [St.adv_lastComment, hl3, hdoc1, List.reverse_nil, List.nil_append]
+    rfl
   obtain ⟨s4, hidl⟩ := hidl
   rw [bind_ok_eq hidl]
   simp only
-  rw [if_neg (by simpa [Idl.methods] using methods_ne_zero L.members hmeth)]
+  rw [if_neg (by simpa [Idl.methods] using methods_ne_zero L.members _ hmeth)]
   rfl
+
 theorem erase_setDoc (m : LMember) (d : Bytes) : (m.erase d).setDoc [] = m.erase [] := by
   cases m <;> rfl
+
+
+/-! ### the member list of the denoted tree -/
+
+/-- without documentation: the members as written, in source order -/
+theorem membersTree_skeleton : ∀ (lc : Bytes) (ms : List (Gap × LMember)),
+    (membersTree lc ms).map (Member.setDoc []) = ms.map (fun p => p.2.erase [])
+  | _, [] => rfl
+  | lc, (g, m) :: r => by
+    simp only [membersTree, List.map_cons, erase_setDoc, membersTree_skeleton _ r]
+
+theorem membersTree_docs : ∀ (lc : Bytes) (ms : List (Gap × LMember)),
+    (membersTree lc ms).map Member.doc = memberDocs lc ms
+  | _, [] => rfl
+  | lc, (g, m) :: r => by
+    simp only [membersTree, memberDocs, List.map_cons, membersTree_docs _ r, List.cons.injEq, and_true]
+    cases m <;> rfl
+
+theorem memberDocs_own_lines : ∀ (lc : Bytes) (ms : List (Gap × LMember)), (∀ p ∈ ms, p.1.hasBreak = true) →
+    memberDocs lc ms = ms.map (fun p => docOf p.1)
+  | _, [], _ => rfl
+  | lc, (g, m) :: r, h => by
+    simp only [memberDocs, List.map_cons]
+    rw [gapPend_break g lc (h (g, m) List.mem_cons_self),
+      memberDocs_own_lines _ r (fun p hp => h p (List.mem_cons_of_mem _ hp))]
+
+/-- when every member starts on a new line, each is documented by `docOf` of the gap in front of it -/
+theorem membersTree_own_lines : ∀ (lc : Bytes) (ms : List (Gap × LMember)), (∀ p ∈ ms, p.1.hasBreak = true) →
+    membersTree lc ms = ms.map (fun p => p.2.erase (docOf p.1))
+  | _, [], _ => rfl
+  | lc, (g, m) :: r, h => by
+    simp only [membersTree, List.map_cons]
+    rw [gapPend_break g lc (h (g, m) List.mem_cons_self),
+      membersTree_own_lines _ r (fun p hp => h p (List.mem_cons_of_mem _ hp))]
+
+/-! ### members are determined by their documentation-free form and their documentation -/
+
+theorem setDoc_doc (m : Member) : (m.setDoc []).setDoc m.doc = m := by
+  cases m <;> rfl
+
+/-- a member list is determined by its documentation-free form and its documentation -/
+theorem members_ext : ∀ (a b : List Member), a.map (Member.setDoc []) = b.map (Member.setDoc []) →
+    a.map Member.doc = b.map Member.doc → a = b
+  | [], [], _, _ => rfl
+  | [], _ :: _, h, _ => by simp at h
+  | _ :: _, [], h, _ => by simp at h
+  | x :: a, y :: b, hs, hd => by
+    simp only [List.map_cons, List.cons.injEq] at hs hd
+    have : x = y := by rw [← setDoc_doc x, ← setDoc_doc y, hs.1, hd.1]
+    rw [this, members_ext a b hs.2 hd.2]
+
 
 end Varlink.Idl
